@@ -213,6 +213,7 @@ type rgen struct {
 	compress bool
 	limit    int
 	big      bool
+	minCut   int   // truncation never cuts before this offset (the HTTP response of an upgrade hand-off case)
 	bounds   []int // frame boundaries (stream offsets)
 }
 
@@ -447,10 +448,10 @@ func (r *rgen) malformed() {
 		r.fr(fspec{fin: true, op: 8, masked: m, payload: p})
 	case 15: // truncated stream
 		r.valid()
-		if n := r.s.size(); n > 1 {
-			cut := 1 + g.Intn(n-1)
+		if n := r.s.size(); n > 1 && n > r.minCut+1 {
+			cut := r.minCut + 1 + g.Intn(n-r.minCut-1)
 			if g.Chance(1, 2) {
-				cut = n - 1 - g.Intn(min(n-1, 4))
+				cut = n - 1 - g.Intn(min(n-r.minCut-1, 4))
 			}
 			t := &stream{}
 			t.add(parseSpec(r.s.spec(0, cut)))
@@ -564,6 +565,80 @@ func genRecv(g *lp.Gen) {
 	}
 	if g.Chance(1, 5) {
 		g.P("X %d %s", g.PickInt(9, 10, 8, 9, 1, 2), specOf(randBytes(g, g.PickInt(0, 5, 125, 126, 127, 1000))))
+	}
+	g.P("E")
+}
+
+// genUp: the upgrade hand-off. The byte stream starts with the server's 101 response and goes through the real HTTP
+// client parser; the websocket frames behind it are often in the SAME read as the end of the response.
+func genUp(g *lp.Gen) {
+	r := &rgen{g: g, s: &stream{}, server: false, compress: g.Chance(1, 3)}
+	if g.Chance(1, 4) {
+		r.limit = g.PickInt(10, 125, 126, 1000, 65536)
+	}
+	g.P("C up compress=%d limit=%d maxframe=%d", b2i(r.compress), r.limit, g.PickInt(32768, 32768, 125))
+	head := "HTTP/1.1 101 Switching Protocols\r\nUpgrade: websocket\r\nConnection: Upgrade\r\nSec-WebSocket-Accept: " +
+		g.Pick("s3pPLMBiTxaQ9kYGzzhZRbK+xOo=", "HSmrc0sMlYUkAGmm5OPpG2HaGWk=") + "\r\n"
+	if r.compress {
+		head += "Sec-WebSocket-Extensions: permessage-deflate; server_no_context_takeover; client_no_context_takeover\r\n"
+	}
+	if g.Chance(1, 3) {
+		head += g.Pick("Server: x\r\n", "Content-Length: 0\r\n", "Sec-WebSocket-Protocol: chat\r\n", "Date: Mon, 01 Jan 2024 00:00:00 GMT\r\n")
+	}
+	head += "\r\n"
+	r.s.add([]byte(head))
+	hl := len(head)
+	r.minCut = hl
+	n := 1 + g.Intn(4)
+	for i := 0; i < n; i++ {
+		if i == n-1 && g.Chance(1, 6) {
+			r.close()
+		} else if g.Chance(1, 8) {
+			r.malformed()
+		} else {
+			r.valid()
+		}
+	}
+	total := r.s.size()
+	var cuts []int
+	switch g.Intn(6) {
+	case 0, 1: // everything in one read: response and frames coalesced
+		cuts = []int{total}
+	case 2: // the response with the first bytes of the first frame, then the rest
+		k := hl + 1 + g.Intn(6)
+		cuts = []int{k, total - k}
+	case 3: // the response alone
+		cuts = []int{hl, total - hl}
+	case 4: // cut inside the final CRLF CRLF
+		k := hl - 1 - g.Intn(3)
+		cuts = []int{k, total - k}
+	default:
+		rest := total
+		for rest > 0 {
+			k := 1 + g.Intn(rest)
+			if g.Chance(1, 2) && rest > 40 {
+				k = 1 + g.Intn(40)
+			}
+			cuts = append(cuts, k)
+			rest -= k
+		}
+	}
+	off := 0
+	for _, k := range cuts {
+		if k <= 0 {
+			continue
+		}
+		if off+k > total {
+			k = total - off
+		}
+		if k <= 0 {
+			break
+		}
+		g.P("H %s", r.s.spec(off, k))
+		off += k
+	}
+	if off < total {
+		g.P("H %s", r.s.spec(off, total-off))
 	}
 	g.P("E")
 }
@@ -716,8 +791,10 @@ func gen(g *lp.Gen) {
 	genUTF8(g, int(genSeed%1000))
 	for i := 3; i < g.N; i++ {
 		switch x := g.Intn(100); {
-		case x < 70:
+		case x < 63:
 			genRecv(g)
+		case x < 70:
+			genUp(g)
 		case x < 97:
 			genRT(g)
 		default:
